@@ -42,8 +42,7 @@ def check_c09(lab, outcome, spec, with_bad, salt):
             return "run returned but %d job(s) were never finalized" % len(lab.sched._jobs)
     else:
         err = outcome[1]
-        if isinstance(err, TypeError) and "cannot pickle" in str(err) and any(
-                fail and caught and mode == 4 for (x, fail, caught, mode) in spec):
+        if P.unpicklable_outcome(spec, outcome):
             # an exception object that cannot be pickled cannot be passed to the recover task (task arguments are hashed by
             # pickling): run raises TypeError - as the stock scheduler does for the same program.  The run has terminated,
             # which is what C09 states; it is not counted as a wrong outcome.
